@@ -318,6 +318,51 @@ def check_train(ctx, c):
             return
 
 
+
+def check_submodel_sender(ctx, g):
+    """feedback THROUGH a model (receiver <<= node_of_the_graph >> outside_node): one free run = the same sequence in
+    chunks = successive calls (the per-step refresh of the frozen values must reach the nodes of the sender model)"""
+    from reservoirpy.node import Node
+    from reservoirpy.nodes import Reservoir, Tanh
+    ob = "submodel_sender"
+    T = g.randint(3, 8)
+    c = {"kind": "submodel_sender", "T": T, "seed": g.randint(0, 10 ** 6), "pieces": cuts(g, T)}
+    ctx.count(c, nontrivial=True, obligation=ob)
+    ctx.stat("feedback through a sub-model sender")
+    X = np.array(flow.seq_rows(common.Gen(c["seed"]), T, 2), dtype=float)
+
+    def lin_init(node, x=None, **kw):
+        node.set_input_dim(x.shape[1])
+        node.set_output_dim(1)
+
+    def build():
+        res = Reservoir(4, seed=c["seed"] % 1000, lr=0.5, sr=0.9, fb_connectivity=1.0, input_connectivity=1.0, rc_connectivity=1.0)
+        lin = Node(forward=lambda n, x: x[:, :1] * 0.5 + x[:, 1:2] * 0.25, initializer=lin_init)
+        res <<= (lin >> Tanh())
+        return res >> lin, res, lin
+    try:
+        ma, ra, la = build()
+        whole = np.asarray(ma.run(X), dtype=float)
+        mb, rb, lb = build()
+        parts, pos = [], 0
+        for n in c["pieces"]:
+            parts.append(np.asarray(mb.run(X[pos:pos + n]), dtype=float).reshape(n, -1))
+            pos += n
+        mc, rc_, lc = build()
+        calls = np.vstack([np.asarray(mc.call(X[t:t + 1]), dtype=float).reshape(1, -1) for t in range(T)])
+    except Exception as e:  # noqa
+        ctx.violation(f"a model with feedback through a sub-model sender raised {type(e).__name__}: {e}", c, obligation=ob)
+        return
+    chunks = np.vstack(parts)
+    for label, other in (("chunks " + str(c["pieces"]), chunks), ("successive calls", calls)):
+        if whole.shape != other.shape or not np.allclose(whole, other, rtol=1e-12, atol=1e-12):
+            ctx.violation(f"feedback through a sub-model sender: one run of {T} steps differs from the same sequence processed as {label} "
+                          f"(max difference {float(np.max(np.abs(whole - other))) if whole.shape == other.shape else 'shape'})", c, obligation=ob)
+            return
+    if not (np.allclose(ra.state(), rb.state(), atol=1e-12) and np.allclose(ra.state(), rc_.state(), atol=1e-12)):
+        ctx.violation("feedback through a sub-model sender: the final reservoir state differs between one run, chunks and calls", c, obligation=ob)
+
+
 # ----------------------------------------------------------------------------- ESN (finding K3)
 
 def check_esn(ctx):
@@ -406,10 +451,16 @@ def run(ctx):
         check_case(ctx, gen_model_case(g))
     for _ in range(ctx.n(60, 800)):
         check_case(ctx, gen_train_case(g))
+    for _ in range(ctx.n(10, 100)):
+        check_submodel_sender(ctx, g)
 
 
 def replay(ctx, data):
-    if data["case"].get("kind") == "esn_witness":
+    if data["case"].get("kind") == "submodel_sender":
+        common.quiet()
+        for _ in range(10):
+            check_submodel_sender(ctx, ctx.gen)
+    elif data["case"].get("kind") == "esn_witness":
         common.quiet()
         check_esn(ctx)
     else:
